@@ -71,6 +71,23 @@ theorem exec_eq (n : Nat) (ops : List Op) : Spec.Counter.exec n ops = n + nexts 
   | cons op ops ih =>
     cases op <;> simp only [Spec.Counter.exec, Spec.Counter.step, nexts, ih] <;> omega
 
+/-- no gaps, no duplicates: the k-th value handed out is `(n + 1 + k) mod 2^16` -/
+theorem counter_nextResults (n : Nat) (ops : List Op) :
+    nextResults ops (Spec.Counter.run n ops) = (List.range (nexts ops)).map (fun k => (n + 1 + k) % 65536) := by
+  induction ops generalizing n with
+  | nil => simp [nextResults, nexts]
+  | cons op ops ih =>
+    cases op with
+    | next =>
+      simp only [Spec.Counter.run, Spec.Counter.step, nextResults, nexts, ih, value, List.range_succ_eq_map,
+        List.map_cons, List.map_map]
+      congr 1
+      apply List.map_congr_left
+      intro k _
+      simp only [Function.comp, Nat.succ_eq_add_one]
+      congr 1; omega
+    | roc => simp only [Spec.Counter.run, Spec.Counter.step, nextResults, nexts, ih]
+
 /-- the predicate of `c07.run` holds of every run of the abstract counter -/
 theorem walk_spec (st : Start) (n : Nat) (last : Option Nat) (zeros : Nat) (ops : List Op)
     (hz : zeros = n / 65536)
